@@ -30,9 +30,13 @@ def main():
     if "--budget" in sys.argv:
         budget = sys.argv[sys.argv.index("--budget") + 1]
     src = f"/tmp/seed-{prop}-out"
+    name = f"{prop}-{k}"
+    if "--round2" in sys.argv:
+        src = f"/tmp/seed2-{prop}-out"
+        name = f"{prop}-{int(k) + 2}"
     patch = os.path.join(src, f"patch{k}.diff")
     demo = os.path.join(src, f"demo{k}.py")
-    out = f"/verif/seeded/{prop}-{k}"
+    out = f"/verif/seeded/{name}"
     os.makedirs(out, exist_ok=True)
     meta_path = os.path.join(out, "meta.json")
     meta = json.load(open(meta_path)) if os.path.exists(meta_path) else {}
@@ -72,6 +76,8 @@ def main():
         print("check exit", rcc, "\n".join(line[:4]))
         shutil.copy(patch, os.path.join(out, "patch.diff"))
         shutil.copy(demo, os.path.join(out, "demo.py"))
+        if os.path.exists(os.path.join(src, "README.md")):
+            shutil.copy(os.path.join(src, "README.md"), os.path.join(out, "agent-README.md"))
         if rc0 == 0 and rc1 != 0:
             meta["verdict"] = "kept: demonstration passes on the clean tree and fails with the change"
         else:
